@@ -226,7 +226,21 @@ func (s *Store) Check(o Op, got Result) (class, what string) {
 		c, w := s.CheckDirs(got.Dirs, blacklist(o.BL))
 		return c, w
 	}
+	// Deleting something that is not there: the documentation does not say
+	// whether that is an error, so only the state (unchanged) is demanded.
+	absentDelete := false
+	switch o.K {
+	case OpDel:
+		_, present := s.Cmd(o.A)
+		absentDelete = !present
+	case OpDelDir:
+		_, present := s.dirs[o.S]
+		absentDelete = !present
+	}
 	want := s.Apply(o)
+	if absentDelete {
+		return "", ""
+	}
 	name := o.K.String()
 	if got.Err != want.Err {
 		if want.Err == "" {
